@@ -69,7 +69,11 @@ def run(ctx):
     for cb, ct, src, dst in copies:
         arms = bs.arm_of(cb)
         if dst[0] == 'derived':
-            name = root_name(fl, b_arg(fl, ct, 1, 0))
+            # which side the copy lands on, by role not by variable name: the loser's content is the source of both
+            # preservation copies, so "destination root == source root" is the loser's side, otherwise the winner's
+            dl, sl = root_user_local(fl, b_arg(fl, ct, 1, 0)), root_user_local(fl, b_arg(fl, ct, 0, 0))
+            same_side = dl is not None and dl == sl
+            name = 'lose_root' if same_side else 'win_root'
             key = 'apply:%s:conflict-copy@%s' % ('+'.join(arms), name)
             guarded = False
             dst_sig = derived_sig(fl, dst[2])
